@@ -81,6 +81,19 @@ func TestC09(t *testing.T) {
 	r := NewRec(t, "C09")
 	defer r.Close()
 	maxH := envInt("VERIF_BLOCKS", 330)
+	// directed scenario: a quorum of evidence arrives before any gas estimate was elected
+	{
+		fa := NewFullApp(t, FullAppOpts{NumValidators: 4, NumUsers: 2, Seed: r.Seed % 1000})
+		b := c07EarlyEvidenceBlock(t, fa)
+		out := "ok"
+		if !b.OK() {
+			out = "aborted"
+			r.Hit("block_never_aborts", fmt.Sprintf("block aborted when evidence arrived before the estimate election: %v %s", b.Err, firstLines(b.Panic, 6)),
+				map[string]interface{}{"scenario": "c07EarlyEvidenceBlock", "seed": r.Seed})
+		}
+		r.Op(fmt.Sprintf("block %d %d", b.Height, len(b.Txs)), out)
+		r.Stat("scenario.early_evidence")
+	}
 	for c := 0; c < r.N; c++ {
 		seed := r.Rng.Int63()
 		rng := rand.New(rand.NewSource(seed))
